@@ -155,7 +155,8 @@ Section Sink.
     r_log : list event;     (* what happened during this run *)
     r_retries : Z;
     r_pending : bool;       (* a re-run was scheduled *)
-    r_killed : bool         (* the kill was issued during this run *)
+    r_killed : bool;        (* the kill was issued during this run *)
+    r_syncok : bool         (* pipeline.sync returned nil (before handleJobError looked at lastError) *)
   }.
 
   (** job.Run: instrumentErrorHandling, sync, store result, (return ticket), handleJobError *)
@@ -182,8 +183,22 @@ Section Sink.
     let retries := if pending then (j_retries st - 1)%Z else j_retries st in
     ({| r_err := e'; r_processed := processed; r_tok := tok; r_log := ws_log ws;
         r_retries := retries; r_pending := pending;
-        r_killed := kill_in cfg (ws_calls ws0) (ws_calls ws) |},
+        r_killed := kill_in cfg (ws_calls ws0) (ws_calls ws);
+        r_syncok := match e with POk => true | _ => false end |},
      {| j_tok := tok; j_wrapped := wrapped; j_ws := ws; j_retries := retries; j_lastProcessed := lastp |}).
+
+  (** a trigger with jobType fullsync runs FullSyncPipeline.sync: the same page loop, but it starts from an empty
+      token every time and stores the token only when the whole sync returned nil *)
+  Definition run_any (v : eh_variant) (cfg : jcfg) (full : bool) (src : list E) (st : jstate) : runrec * jstate :=
+    if full then
+      let '(r, st') := run v cfg src {| j_tok := 0; j_wrapped := j_wrapped st; j_ws := j_ws st;
+                                        j_retries := j_retries st; j_lastProcessed := j_lastProcessed st |} in
+      let stored := if r_syncok r then r_tok r else j_tok st in
+      ({| r_err := r_err r; r_processed := r_processed r; r_tok := stored; r_log := r_log r;
+          r_retries := r_retries r; r_pending := r_pending r; r_killed := r_killed r; r_syncok := r_syncok r |},
+       {| j_tok := stored; j_wrapped := j_wrapped st'; j_ws := j_ws st'; j_retries := j_retries st';
+          j_lastProcessed := j_lastProcessed st' |})
+    else run v cfg src st.
 
   Definition j_init (retries : Z) : jstate :=
     {| j_tok := 0; j_wrapped := false; j_ws := ws_init; j_retries := retries; j_lastProcessed := 0 |}.
@@ -211,24 +226,24 @@ Section Chain.
   Fixpoint zseq (from : Z) (len : nat) : list Z :=
     match len with O => [] | S l => from :: zseq (from + 1) l end.
 
-  Fixpoint chain (v : eh_variant) (cfg : jcfg) (fuel : nat) (n : nat) (adds : list nat) (crons : nat)
+  Fixpoint chain (v : eh_variant) (cfg : jcfg) (full : bool) (fuel : nat) (n : nat) (adds : list nat) (crons : nat)
            (st : jstate Z) : list (runrec Z) :=
     match fuel with
     | O => []
     | S f =>
-      let '(r, st') := run inner v cfg (zseq 0 n) st in
+      let '(r, st') := run_any inner v cfg full (zseq 0 n) st in
       let n' := match adds with a :: _ => n + a | [] => n end in
-      if r_pending r then r :: chain v cfg f n' (tl adds) crons st'
+      if r_pending r then r :: chain v cfg full f n' (tl adds) crons st'
       else match crons with
            | O => [r]
-           | S c => r :: chain v cfg f n' (tl adds) c st'
+           | S c => r :: chain v cfg full f n' (tl adds) c st'
            end
     end.
 
   (** a burst of [ext] externally triggered runs (cron ticks, manual runs) that all happen while the
       re-runs they schedule are still pending (RetryDelay longer than the burst); afterwards the
       pending re-runs fire in the order they were scheduled, each may schedule another one *)
-  Fixpoint burst (v : eh_variant) (cfg : jcfg) (fuel : nat) (n : nat) (ext queued : nat)
+  Fixpoint burst (v : eh_variant) (cfg : jcfg) (full : bool) (fuel : nat) (n : nat) (ext queued : nat)
            (st : jstate Z) : list (runrec Z) :=
     match fuel with
     | O => []
@@ -236,11 +251,11 @@ Section Chain.
       match ext, queued with
       | O, O => []
       | S e, _ =>
-        let '(r, st') := run inner v cfg (zseq 0 n) st in
-        r :: burst v cfg f n e (if r_pending r then S queued else queued) st'
+        let '(r, st') := run_any inner v cfg full (zseq 0 n) st in
+        r :: burst v cfg full f n e (if r_pending r then S queued else queued) st'
       | O, S q =>
-        let '(r, st') := run inner v cfg (zseq 0 n) st in
-        r :: burst v cfg f n O (if r_pending r then S q else q) st'
+        let '(r, st') := run_any inner v cfg full (zseq 0 n) st in
+        r :: burst v cfg full f n O (if r_pending r then S q else q) st'
       end
     end.
 End Chain.
